@@ -19,6 +19,7 @@ type pairP struct {
 	Tag string
 	P   *zoo.Small
 	L   []int32
+	C   zoo.Custom // a class that goes out under a custom wire name
 }
 
 // histWorld: the concrete values behind the abstract values 1..4 of HApi.
@@ -43,7 +44,7 @@ type smallTwin struct {
 func newHistWorld() *histWorld {
 	w := &histWorld{p: &zoo.Small{Name: "shared", N: 5}}
 	w.vals = map[int]interface{}{1: "scalar", 2: zoo.Small{Name: "a", N: 1}, 3: w.p,
-		4: &pairP{Tag: "t", P: w.p, L: []int32{1, 2, 3}}, 5: []string{}, 6: []*zoo.Small{w.p, w.p}}
+		4: &pairP{Tag: "t", P: w.p, L: []int32{1, 2, 3}, C: zoo.Custom{Key: "k", Val: "v"}}, 5: []string{}, 6: []*zoo.Small{w.p, w.p}}
 	w.bad = map[int]interface{}{2: []interface{}{zoo.Small{Name: "x"}, make(chan int)},
 		4: []interface{}{&pairP{P: w.p}, "s", func() {}}}
 	w.tm, w.nm = hessian.ExtractTypeNameMap([]interface{}{w.vals[2], w.vals[4], w.vals[5], w.vals[6]})
